@@ -2,7 +2,7 @@
 # usage: tools/try_seed.sh <patch.diff> <tier> <Cxx> [Cyy ...]
 # Applies a seeded change to /repo, runs the given checks, and always undoes it.
 set -u
-patch=$1; tier=$2; shift 2
+patch=$(realpath "$1"); tier=$2; shift 2
 cd /verif
 export VERIF_EVIDENCE_DIR=/verif/work/seed-evidence
 if ! git -C /repo diff --quiet; then echo "refusing: /repo has uncommitted changes"; exit 9; fi
